@@ -104,7 +104,7 @@ def explain (b : Backend) (mds : List Md) (uses : List Use) : Outcome → String
   | .ok o =>
     if !decide (Acceptable b mds uses) then
       (match mds.find? (fun md => !decide (ValidMd b md)) with
-       | some md => s!"the job was translated although the declaration of '{S (getStr md "name")}' (metadata_type '{S md.mdType}') is malformed or for another backend"
+       | some md => s!"the job was translated although the declaration of '{S (getStr md (T "name"))}' (metadata_type '{S md.mdType}') is malformed or for another backend"
        | none =>
          match uses.find? (fun u => !decide (CallOk u.args)) with
          | some u => s!"the job was translated although the call of '{S u.name}' does not have exactly one string-constant argument"
